@@ -198,17 +198,26 @@ def run_history(h):
 
 
 def check_history(h):
-    try:
-        fs = run_history(h)
-        text = str(fs)
-    except Exception as e:  # noqa: BLE001
-        return [("factory-raises|" + impl.exc_bucket(e), {"history": h, "exc": repr(e)[:200]})], None
-    out = []
-    for b, d in check_text(text, "history"):
-        d = dict(d)
-        d["ops"] = h["ops"]
-        out.append(("history|" + b, d))
-    return out, text
+    """The set is rendered after every operation (a program that saves after each
+    edit), not only at the end: each rendering has to be valid and self-sufficient."""
+    fs = fsmodel.new_set()
+    text = None
+    for i, op in enumerate(h["ops"]):
+        try:
+            fsmodel.apply_op(fs, op, h["defs"])
+            text = str(fs)
+        except Exception as e:  # noqa: BLE001
+            return [("factory-raises|" + impl.exc_bucket(e), {"history": h, "exc": repr(e)[:200], "at_op": i})], None
+        last = i == len(h["ops"]) - 1
+        out = []
+        for b, d in check_text(text, "history"):
+            d = dict(d)
+            d["ops"] = h["ops"]
+            d["at_op"] = i
+            out.append(("history|" + b if last else "history|intermediate-rendering|" + b, d))
+        if out:
+            return out, text
+    return [], text
 
 
 def hist_worker(arg):
